@@ -160,7 +160,7 @@ def r07_2(chk, u3, u1):
         okc = len(calls) == 1
         if okc:
             mp, probs = bind(calls[0], Sig(u3.func('fg')))
-            got = {p: norm(a) for p, a in mp.items()}
+            got = pyrules.bound_texts(fn, mp)
             okc = not probs and got == {'g': 'g', 'x': 'x', 'y': 'y', 'p': 'self'}
         chk.ob('R07.2', okc, PANEL, fname, 'fg call in the %s loop' % lst, expected='fg(g, x, y, self)', got=[norm(c) for c in calls])
         # dofs dispatch: force row per branch; degree in inc
@@ -216,7 +216,7 @@ def r07_3(chk):
         ok = len(calls) == 1
         if ok:
             mp, probs = bind(calls[0], Sig(module(PANEL).method('Panel', 'calc_fext'), drop_self=True))
-            got = {p: norm(a) for p, a in mp.items()}
+            got = pyrules.bound_texts(fn, mp)
             ok = not probs and got.get('inc') == 'inc' and got.get('size') == 'size' and got.get('col0') == pv + '.col_start'
     chk.ob('R07.3', ok, ASSEMBLY, 'PanelAssembly.calc_fext', 'per panel: inc forwarded, own column offset, global size', got=got,
            sample='PanelAssembly.calc_fext -> p.calc_fext(%s)' % got)
